@@ -361,6 +361,11 @@ def reader_table(func, obj):
                 e = Entry('R', 'attr', key or '<dyn>', attr, n, _guards_of(func, n, par), func,
                           kargs)
                 e.in_test = _in_test(n, par)
+                # fstream['bound_3'].attrs['type']: an attribute of a MEMBER's group, written
+                # by the member's own write(), not by this class's writer
+                owner = n.value.value
+                if isinstance(owner, ast.Subscript) and _is_group(owner.value, gv):
+                    e.member_group = key_template(owner.slice)[0]
                 out.append(e)
             elif _is_group(n.value, gv) and not _is_attrs(n.value):
                 key, kargs = key_template(n.slice)
@@ -504,6 +509,23 @@ def rule_P1_P2(ctx, cname, writer, reader, obj, rid1='P1', rid2='P2', reader_onl
         if ws is None:
             ws = [w for k, lst in wkeys.items() if template_match(k, r.key) for w in lst] or None
         if ws is None and dyn_w and any(_dyn_match(d.key, r.key) for d in dyn_w):
+            continue
+        if ws is None and getattr(r, 'member_group', None):
+            # attribute of a member's sub-group: some member class must write it
+            mg = r.member_group
+            wk = [w for w in W if w.kind == 'group' and (w.key == mg or template_match(w.key, mg)
+                                                          or template_match(mg, w.key))]
+            owners = []
+            for c2, w2, r2, u2, o2 in persist_classes(ctx.program):
+                if any(e2.kind == 'attr' and e2.key == r.key for e2 in writer_table(w2)):
+                    owners.append(c2.name)
+            okm = bool(wk) and bool(owners)
+            ctx.ob(rid1, '%s:member-attribute(%s.%s)' % (reader.qualname, mg, r.key), okm,
+                   r.where,
+                   'attribute %r of member group %r is written by the member\'s own write() '
+                   '(%s)' % (r.key, mg, ', '.join(sorted(owners))) if okm else
+                   'reader consumes attribute %r of member group %r, which no member class '
+                   'writes' % (r.key, mg))
             continue
         if ws is None:
             ctx.ob(rid1, '%s:reads-unwritten(%s)' % (reader.qualname, r.key), False, r.where,
@@ -1980,7 +2002,11 @@ def rule_P11(ctx, rid='P11'):
              'different class')
     prog = ctx.program
     n = 0
-    for c, w, r, u, obj in persist_classes(prog):
+    triples = list(persist_classes(prog))
+    S_ = prog.classes.get('Sampler')
+    if S_ is not None and 'write' in S_.methods and '__init__' in S_.methods:
+        triples.append((S_, S_.methods['write'], S_.methods['__init__'], None, 'self'))
+    for c, w, r, u, obj in triples:
         gv = _group_vars(r)
         for st in walk_no_nested(r.node):
             if not isinstance(st, ast.If):
@@ -2006,6 +2032,13 @@ def rule_P11(ctx, rid='P11'):
                             isinstance(x.targets[0], ast.Name) and \
                             isinstance(x.value, ast.Name) and x.value.id in prog.classes:
                         return x.value.id, x
+                # ... or the branch reads the member with a class directly: X.read(group[...])
+                for x in stmts:
+                    for c_ in ast.walk(x):
+                        if isinstance(c_, ast.Call) and isinstance(c_.func, ast.Attribute) and \
+                                c_.func.attr == 'read' and isinstance(c_.func.value, ast.Name) \
+                                and c_.func.value.id in prog.classes:
+                            return c_.func.value.id, x
                 return None, None
             eq_branch, ne_branch = (st.body, st.orelse) if \
                 isinstance(t.ops[0], ast.Eq) != flipped else (st.orelse, st.body)
@@ -2026,6 +2059,14 @@ def rule_P11(ctx, rid='P11'):
             okw = any(e.src is not None and '__class__.__name__' in unparse(e.src) or
                       (e.src is not None and 'type(' in unparse(e.src) and
                        '__name__' in unparse(e.src)) for e in ws)
+            owner = t.left.value.value if isinstance(t.left.value, ast.Attribute) else None
+            if not okw and isinstance(owner, ast.Subscript):
+                # the tag is an attribute of the member's own group: the class named by the tag
+                # must write exactly that literal
+                cw = prog.classes[tag].methods.get('write')
+                okw = cw is not None and any(
+                    e.kind == 'attr' and e.key == key and isinstance(e.src, ast.Constant) and
+                    e.src.value == tag for e in writer_table(cw))
             n += 1
             ctx.ob(rid, '%s.write:tag(%s)' % (c.name, key), okw, w.where(),
                    'the writer stores the class name of the member under %r' % key if okw else
@@ -2177,4 +2218,90 @@ def rule_P13(ctx, rid='P13'):
                'missing one is requested' % (sorted(wk), sorted(rk)))
     else:
         ctx.note('%s not decided: layer loops not found' % rid)
+    return n
+
+
+# ---------------------------------------------------------------------------
+# P14 a class fixed by position in the reader is a class fixed by position in the state
+# ---------------------------------------------------------------------------
+
+def rule_P14(ctx, rid='P14'):
+    ctx.rule(rid, 'positional class: where the resume block rebuilds one position of a list '
+             'with a fixed class that differs from the class used for the other positions '
+             '(bound_0 as UnitCube, the rest as NautilusBound) without consulting the stored '
+             'type, no code path may remove or replace that position of the list')
+    prog = ctx.program
+    reader = prog.func('Sampler.__init__')
+    R = reader_table(reader, 'self')
+    fam = {}
+    for e in R:
+        if e.kind == 'group' and e.cls_names:
+            base = e.key.replace('{}', '')
+            if '{}' in e.key:
+                fam.setdefault(base, {}).setdefault('*', set()).update(e.cls_names)
+            elif e.key[len(base.rstrip('0123456789')):].isdigit() or e.key[-1:].isdigit():
+                b2 = e.key.rstrip('0123456789')
+                fam.setdefault(b2, {}).setdefault(int(e.key[len(b2):]), set()).update(
+                    e.cls_names)
+                fam[b2].setdefault('entry_%d' % int(e.key[len(b2):]), e)
+    n = 0
+    for base, d in sorted(fam.items()):
+        generic = d.get('*', set())
+        for pos, classes in sorted((k, v) for k, v in d.items() if isinstance(k, int)):
+            if not generic or classes == generic:
+                continue
+            entry = d['entry_%d' % pos]
+            # does the reader look at the stored type before choosing?
+            tagged = any('type' in unparse(t) or 'class' in unparse(t) for t, _ in entry.guards)
+            # which attribute is filled
+            attr = entry.attr
+            removals = []
+            S = prog.cls('Sampler')
+            for f in S.methods.values():
+                if f is reader:
+                    continue
+                cfg = cfg_of(f)
+                for x in walk_no_nested(f.node):
+                    idx = None
+                    if isinstance(x, ast.Call) and isinstance(x.func, ast.Attribute) and \
+                            x.func.attr in ('pop', 'remove') and \
+                            dotted(x.func.value) == 'self.%s' % attr:
+                        idx = x.args[0] if x.args else ast.Constant(value=-1)
+                    if isinstance(x, ast.Delete):
+                        for t in x.targets:
+                            if isinstance(t, ast.Subscript) and \
+                                    dotted(t.value) == 'self.%s' % attr:
+                                idx = t.slice
+                    if idx is None or not cfg.has(x):
+                        continue
+                    cv = const_value(idx)
+                    if cv is not None and cv != pos and not (cv < 0):
+                        continue
+                    safe = False
+                    if isinstance(idx, ast.Name):
+                        for atom, tx, tr in cfg.facts(cfg.node_of(x).id):
+                            if isinstance(atom, ast.Compare) and len(atom.ops) == 1 and \
+                                    isinstance(atom.left, ast.Name) and \
+                                    atom.left.id == idx.id and \
+                                    const_value(atom.comparators[0]) == pos and (
+                                        (isinstance(atom.ops[0], ast.Gt) and tr) or
+                                        (isinstance(atom.ops[0], ast.NotEq) and tr) or
+                                        (isinstance(atom.ops[0], ast.Eq) and not tr) or
+                                        (isinstance(atom.ops[0], ast.LtE) and not tr)):
+                                safe = True
+                    if not safe:
+                        removals.append((f, x))
+            ok = tagged or not removals
+            n += 1
+            ctx.ob(rid, 'Sampler.__init__:positional-class(%s%d)' % (base, pos), ok,
+                   entry.where,
+                   '%s%d is rebuilt as %s; position %d of self.%s is never removed' % (
+                       base, pos, sorted(classes), pos, attr) if ok else
+                   '%s%d is always rebuilt as %s (the other positions as %s) without looking at '
+                   'the stored type, but `%s` in %s can remove position %d of self.%s (an empty '
+                   'first shell at the end of exploration): the file then holds a %s under %s%d '
+                   'and the resumed sampler silently treats it as a %s'
+                   % (base, pos, sorted(classes), sorted(generic),
+                      unparse(removals[0][1])[:40], removals[0][0].qualname, pos, attr,
+                      sorted(generic)[0], base, pos, sorted(classes)[0]))
     return n
